@@ -15,6 +15,7 @@ import (
 	"fmt"
 	"math"
 	"time"
+	_ "time/tzdata"
 
 	"github.com/pinealctx/neptune/idgen/snowflake"
 	"pgregory.net/rapid"
@@ -507,7 +508,40 @@ var locs = func() []*time.Location {
 	if err != nil {
 		sh = time.FixedZone("CST", 8*3600)
 	}
-	return []*time.Location{time.UTC, sh, time.FixedZone("west", -(11*3600 + 1800)), time.FixedZone("east", 14*3600)}
+	out := []*time.Location{time.UTC, sh, time.FixedZone("west", -(11*3600 + 1800)), time.FixedZone("east", 14*3600)}
+	// locations with daylight-saving time (zone data embedded through time/tzdata): wall-clock readings repeat in the
+	// fall-back hour, so anything that rebuilds a time from its calendar fields goes wrong there
+	for _, name := range dstNames {
+		if l, err := time.LoadLocation(name); err == nil {
+			out = append(out, l)
+		} else {
+			out = append(out, time.UTC)
+		}
+	}
+	return out
+}()
+
+var dstNames = []string{"America/New_York", "Europe/Berlin", "Australia/Lord_Howe"}
+
+const firstDSTLoc = 4
+
+// fallBacks[k] lists the instants (unix seconds) at which the clocks of locs[firstDSTLoc+k] are set back, 1990..2045.
+var fallBacks = func() [][]int64 {
+	out := make([][]int64, len(dstNames))
+	for k := range dstNames {
+		l := locs[firstDSTLoc+k]
+		start := time.Date(1990, 1, 1, 0, 0, 0, 0, time.UTC).Unix()
+		end := time.Date(2045, 1, 1, 0, 0, 0, 0, time.UTC).Unix()
+		_, prev := time.Unix(start, 0).In(l).Zone()
+		for u := start; u < end; u += 1800 {
+			_, off := time.Unix(u, 0).In(l).Zone()
+			if off < prev {
+				out[k] = append(out[k], u)
+			}
+			prev = off
+		}
+	}
+	return out
 }()
 
 func (c Cfg) timeOf(i Instant) time.Time {
@@ -548,7 +582,19 @@ func genInstant(t *rapid.T, c Cfg, label string) Instant {
 	if rapid.IntRange(0, 3).Draw(t, label+"NsKind") == 0 {
 		ns = rapid.Int32Range(0, 999999).Draw(t, label+"NsAny")
 	}
-	return Instant{Off: off, Ns: ns, Loc: rapid.IntRange(0, len(locs)-1).Draw(t, label+"Loc")}
+	in := Instant{Off: off, Ns: ns, Loc: rapid.IntRange(0, len(locs)-1).Draw(t, label+"Loc")}
+	// one instant in eight lies around a moment at which a daylight-saving location sets its clocks back (first or
+	// second pass through the repeated wall-clock interval), carried in that location
+	if rapid.IntRange(0, 7).Draw(t, label+"Fallback") == 0 {
+		k := rapid.IntRange(0, len(dstNames)-1).Draw(t, label+"DstLoc")
+		if fb := fallBacks[k]; len(fb) > 0 {
+			u := rapid.SampledFrom(fb).Draw(t, label+"Transition") + rapid.Int64Range(-3600, 3599).Draw(t, label+"AroundFallback")
+			if o := u*1000 - c.EpochMs + off%1000; o >= 0 && o <= c.tsMax() {
+				in.Off, in.Loc = o, firstDSTLoc+k
+			}
+		}
+	}
+	return in
 }
 
 func GenRange(t *rapid.T) CaseRange {
